@@ -110,6 +110,19 @@ func c04Merge(r *rand.Rand, a, b map[string]any, app bool) Case {
 	if !reflect.DeepEqual(nodeToAny(A), beforeA) || !reflect.DeepEqual(nodeToAny(B), beforeB) {
 		fail = append(fail, "Merge modified one of its inputs")
 	}
+	// a result is a value: merging the same A once more, with another B, does not reach into the first result
+	if pn := guard(func() {
+		B2 := anyToContainer(replaceScalars(b, "second").(map[string]any))
+		_ = A.Merge(B2, opts...)
+		if !reflect.DeepEqual(nodeToAny(res), got) {
+			fail = append(fail, "a second Merge of the same A with another B changed the first result")
+		}
+		if !reflect.DeepEqual(nodeToAny(A), beforeA) {
+			fail = append(fail, "a second Merge modified A")
+		}
+	}); pn != "" {
+		fail = append(fail, "panic in a second Merge: "+pn)
+	}
 	// identities
 	e := dom.Builder().Container()
 	if !reflect.DeepEqual(nodeToAny(A.Merge(e, opts...)), beforeA) || !reflect.DeepEqual(nodeToAny(e.Merge(A, opts...)), beforeA) {
@@ -150,6 +163,25 @@ func c04Overlay(r *rand.Rand, docs []map[string]any, app bool) Case {
 		Coq: "CMergeAll " + gBool(app) + " " + gList(nodes, gNode) + " " + gNode(got), Fail: fail, Nontrivial: len(docs) >= 2}
 }
 
+func replaceScalars(v any, with any) any {
+	switch x := v.(type) {
+	case map[string]any:
+		m := map[string]any{}
+		for k, c := range x {
+			m[k] = replaceScalars(c, with)
+		}
+		return m
+	case []any:
+		l := make([]any, 0, len(x))
+		for _, c := range x {
+			l = append(l, replaceScalars(c, with))
+		}
+		return l
+	default:
+		return with
+	}
+}
+
 // fluent.ConfigHelper: defaults, then overrides, then a file
 func c04Fluent(r *rand.Rand, idx int, docs []map[string]any) Case {
 	var fail []string
@@ -173,6 +205,9 @@ func c04Fluent(r *rand.Rand, idx int, docs []map[string]any) Case {
 		}
 		// last document through a file
 		fluent.NewConfigHelper[map[string]any]().Add(deepCopy(docs[len(docs)-1])).Save(file)
+		if (idx/8)%2 == 0 { // the accumulated result may be looked at on the way (e.g. to find the file to load next)
+			_ = h.Result()
+		}
 		res := h.Load(file).Result()
 		got = normGeneric(*res)
 	})
@@ -240,7 +275,7 @@ func mutateDeep(r *rand.Rand, v any, o genOpts, depth int) any {
 func init() {
 	register(&Prop{
 		ID:   "C04",
-		Rule: "kinds: merge (pairs (A,B): B derived from A by 1-4 mutations at any depth — kind flips, nulls, list truncation/extension, lists of containers/lists — or independent; both list strategies; inputs snapshotted before/after, identities and idempotence as Go-side oracles), overlay-merged (2-3 layers through OverlayDocument.Merged), fluent (ConfigHelper Add..Load(file).Result()). Non-trivial: pair has a kind conflict or unequal-length lists. Distinct by Gallina term. ConfigHelper sources are plain maps, builders and sealed views in turn.",
+		Rule: "kinds: merge (pairs (A,B): B derived from A by 1-4 mutations at any depth — kind flips, nulls, list truncation/extension, lists of containers/lists — or independent; both list strategies; inputs snapshotted before/after, identities and idempotence as Go-side oracles), overlay-merged (2-3 layers through OverlayDocument.Merged), fluent (ConfigHelper Add..Load(file).Result()). Non-trivial: pair has a kind conflict or unequal-length lists. Distinct by Gallina term. ConfigHelper sources are plain maps, builders and sealed views in turn. The same A is merged a second time with another B and the first result re-read; Result() is looked at in the middle of every second ConfigHelper chain.",
 		Corpus: func() []Case {
 			return []Case{
 				c04Merge(nil, map[string]any{"a": 1}, map[string]any{"a": nil, "b": nil}, false),
